@@ -556,7 +556,13 @@ def r11_11(ctx):
     ctx.floor(n, 1, "`with self.console` contexts in refresh()")
 
 
-RULES = [r11_1, r11_2, r11_3, r11_4, r11_5, r11_6, r11_7, r11_8, r11_9, r11_10, r11_11]
+def r11_12(ctx):
+    from .c10 import r10_1
+    from .common import borrow as _borrow
+    _borrow(ctx, r10_1, "R10.1", "R11.12", " [a refresh that was waiting for the display lock while stop() ran must find the render hook already removed: the hook is popped inside the locked cleanup, not after the lock is released]")
+
+
+RULES = [r11_1, r11_2, r11_3, r11_4, r11_5, r11_6, r11_7, r11_8, r11_9, r11_10, r11_11, r11_12]
 
 
 def _xcheck(ctx):
